@@ -118,6 +118,8 @@ class SpecMixin:
             return MARKER
         if kind == "cls":
             return SV("cls", None, extra)
+        if kind == "str":          # a string constant (e.g. the `itertype` of _Tree.keys)
+            return SV("str", None, extra)
         z = fresh(name, KIND_SORT[kind])
         if kind == "list":
             st.assume(z > 0)
@@ -520,6 +522,15 @@ class SpecMixin:
             return SV("str", None, a.kind + (str(len(a.x)) if a.kind == "tuple" else ""))
         if f == "istuple":
             return mk_bool(args[0].kind == "tuple")
+        if f == "last_ret":       # what the most recent havocked call of that name returned (typestate views)
+            v = st.ghost.get("ret:" + args[0].x)
+            if v is None:
+                raise Unsupported("no call of %s on this path" % args[0].x)
+            return v
+        if f == "called":         # was there a (havocked) call of that name on this path?
+            return mk_bool(("ret:" + args[0].x) in st.ghost)
+        if f == "is_omitted":     # an omitted bound: the marker or None
+            return mk_bool(args[0].kind in ("marker", "none"))
         if f == "is_none":
             return mk_bool(self.same(st, args[0], NONE))
         if f == "list_eq":
